@@ -22,6 +22,9 @@ type seed struct {
 }
 
 var seeds = []seed{
+	{"RemoveRange clamps the end after comparing it with the start", "U6", "roaring.go", "\t\trangeEnd = uint64(0x100000000)\n\t\tif rangeStart >= rangeEnd {\n\t\t\t// the whole range lies beyond the 32-bit universe\n\t\t\treturn\n\t\t}\n", "\t\trangeEnd = uint64(0x100000000)\n", "RemoveRange|rangeStart narrowed"},
+	{"CardinalityInRange clamps the end after comparing it with the start", "U6", "roaring.go", "\t\tend = MaxUint32 + 1\n\t\tif start >= end {\n\t\t\t// the whole range lies beyond the 32-bit universe\n\t\t\treturn 0\n\t\t}\n", "\t\tend = MaxUint32 + 1\n", "CardinalityInRange|start narrowed"},
+	{"AddRange silently clamps its end instead of refusing it", "U6", "roaring.go", "\tif rangeEnd-1 > MaxUint32 {\n\t\tpanic(\"rangeEnd-1 > MaxUint32\")\n\t}\n\thbStart := uint32(highbits(uint32(rangeStart)))\n\tlbStart := uint32(lowbits(uint32(rangeStart)))\n\thbLast := uint32(highbits(uint32(rangeEnd - 1)))\n\tlbLast := uint32(lowbits(uint32(rangeEnd - 1)))\n\n\tvar max uint32 = maxLowBit\n\tfor hb := hbStart; hb <= hbLast; hb++ {", "\tif rangeEnd-1 > MaxUint32 {\n\t\trangeEnd = MaxUint32 + 1\n\t}\n\thbStart := uint32(highbits(uint32(rangeStart)))\n\tlbStart := uint32(lowbits(uint32(rangeStart)))\n\thbLast := uint32(highbits(uint32(rangeEnd - 1)))\n\tlbLast := uint32(lowbits(uint32(rangeEnd - 1)))\n\n\tvar max uint32 = maxLowBit\n\tfor hb := hbStart; hb <= hbLast; hb++ {", "AddRange|rangeStart narrowed"},
 	{"NextUnsetBit inverts the word after shifting it", "U4", "bitmapcontainer.go", "\tw := ^bc.bitmap[x] >> (i % 64)\n", "\tw := bc.bitmap[x]\n\tw = w >> (i % 64)\n\tw = ^w\n", "NextUnsetBit|complement of a shifted word"},
 	{"nextAbsentValue inverts the word after shifting it", "U4", "bitmapcontainer.go", "\tw := ^bc.bitmap[x] >> uint(target%64)\n", "\tw := ^(bc.bitmap[x] >> uint(target%64))\n", "nextAbsentValue|complement of a shifted word"},
 	{"Ranges stops bounding the count of ones taken on the shifted word", "U4", "iter.go", "\t\t\t\t\t\tif lo+ones < 64 {\n", "\t\t\t\t\t\tif w&(1<<63) == 0 {\n", "Ranges$1|complement of a shifted word"},
